@@ -35,7 +35,7 @@ type c01Shape struct {
 }
 
 var c01Reqs = []string{"to", "from", "auto_crash", "auto_rofs", "manual_failover"}
-var c01Hists = []string{"equal", "behind", "tail", "tail", "gap", "errant", "far_behind"}
+var c01Hists = []string{"equal", "behind", "tail", "tail", "gap", "errant", "far_behind", "applier_stopped_late"}
 
 func c01Gen(seed int64, idx int) c01Shape {
 	r := rand.New(rand.NewSource(seed))
@@ -55,9 +55,17 @@ func c01Gen(seed int64, idx int) c01Shape {
 		}
 		sh.Hist = append(sh.Hist, h)
 	}
+	// every 6th shape: the first replica's applier stops shortly before the request and the other replicas fall behind in
+	// download, so that its received-only tail is held by nobody else
+	if (idx/len(c01Reqs))%6 == 2 {
+		for i := range sh.Hist {
+			sh.Hist[i] = "behind"
+		}
+		sh.Hist[0] = "applier_stopped_late"
+	}
 	// a received-but-unapplied tail only stays one while the master keeps writing faster than the replica applies
 	for _, h := range sh.Hist {
-		if h == "tail" {
+		if h == "tail" || h == "applier_stopped_late" {
 			sh.Workload = true
 		}
 	}
@@ -499,6 +507,21 @@ func c01Scenario(u *Unit, name string, sh c01Shape, fault *c01Fault) (*Tracker, 
 		tr.Reset()
 		// divergence that appears after the list was last recomputed: the members are still listed when the request arrives
 		for i, h := range hosts[1:] {
+			if sh.Hist[i] == "applier_stopped_late" {
+				// the SQL thread of a listed member stops (operator, error) shortly before the request while its IO thread
+				// goes on receiving and acknowledging: it holds a growing received-only tail
+				s.W.Manual(h, "applier stopped", func(x *world.Server) { x.SQLRun = false })
+				sc.Cover("member-with-stopped-applier")
+			}
+		}
+		for i, h := range hosts[1:] {
+			if sh.Hist[i] == "applier_stopped_late" {
+				time.Sleep(1500 * time.Millisecond)
+				break
+			}
+			_ = h
+		}
+		for i, h := range hosts[1:] {
 			if sh.Hist[i] == "errant_late" {
 				n := int64(1 + i)
 				s.W.Manual(h, "errant transactions", func(x *world.Server) { x.Executed.AddRange(x.UUID, 1, n) })
@@ -674,5 +697,5 @@ func init() {
 			}
 			return f
 		},
-		Rule: "unit = cluster shape (2-4 HA, cascade, semi-sync on/off, wait count, force_switchover, per-replica GTID history from {equal, behind, far behind, received-but-unapplied tail, gap, errant}, multi-source base, priorities, async mode with allowed lag 20 s and per-replica repl_mon delay {3,19,20,100} s when semi-sync is off) x request kind; a fault-free baseline enumerates the external call boundaries after the request, then one run per sampled (boundary x fault kind), half of the sample stratified to the freeze phase (a member other than the old master dies, fails or hangs at its first read-only / stop-IO call); non-trivial = a promotion event or a split-brain abort was observed; distinct by (n, semi-sync, request, force, fault kind, boundary class, outcome)"})
+		Rule: "unit = cluster shape (2-4 HA, cascade, semi-sync on/off, wait count, force_switchover, per-replica GTID history from {equal, behind, far behind, received-but-unapplied tail, gap, errant, applier stopped shortly before the request}, multi-source base, priorities, async mode with allowed lag 20 s and per-replica repl_mon delay {3,19,20,100} s when semi-sync is off) x request kind; a fault-free baseline enumerates the external call boundaries after the request, then one run per sampled (boundary x fault kind), half of the sample stratified to the freeze phase (a member other than the old master dies, fails or hangs at its first read-only / stop-IO call); non-trivial = a promotion event or a split-brain abort was observed; distinct by (n, semi-sync, request, force, fault kind, boundary class, outcome)"})
 }
